@@ -3,6 +3,7 @@ import PikaVerif.Lemmas.SemProg
 import PikaVerif.Lemmas.SemCover
 import PikaVerif.Lemmas.SemSolo
 import PikaVerif.Lemmas.SSemProg
+import PikaVerif.Lemmas.SSemSolo
 /-!
 # C08t — termination / bounded progress of the semaphore operations (follow-up of C08)
 
@@ -379,5 +380,137 @@ example : (runLog SSem.pstep
      .inv 1 (.signal 4), .slAcq 1, .sig 1 4 1, .popResume 1 0 0, .slRel 1, .ret 1 false,
      .woke 0, .slAcq 0, .cvWoke 0 false, .pass 0 5 4, .slRel 0, .ret 0 true,
      .done 0, .done 1]).isSome = true := by decide
+
+end PikaVerif.C08t
+
+namespace PikaVerif.C08t
+open PikaVerif PikaVerif.C08
+
+
+/-- **One `signal(l)` call wakes every queued waiter, with explicit step bounds (sliding).**
+    In any reachable state where thread `r` has invoked `signal(l)`, the internal lock is free and
+    the threads on the wait queue are parked in `wait`: the signaller running alone
+    (`SSem.sigSolo`, at most `3 |queue| + 5` events) raises the lower limit to `max l lower`, pops
+    and resumes every queued waiter (each gets its wake-up token) and returns.  Then any of the
+    woken waiters `g` (of `wait(u)`), running alone for exactly 6 events, re-checks its condition
+    against the new lower limit: if `u - max_difference ≤ max l lower` it returns `true`
+    (`SSem.waitSoloPass`, last event `ret g true`), otherwise it queues itself again and parks
+    (`SSem.waitSoloBlock`), with its wake-up token consumed. -/
+theorem C08t_sliding_signal_wakes (s : SSem.St) (hr : SReachable s) (r : Nat) (l : Int) (hrn : r < s.n)
+    (hl : s.lock = none) (hp : s.pc r = .want (.signal l))
+    (hpark : ∀ g, g ∈ s.queue → ∃ u, s.pc g = .susp u false) :
+    ∃ s1,
+      runLog SSem.step s (SSem.sigSolo r l s.lower s.queue) = some s1 ∧
+      (SSem.sigSolo r l s.lower s.queue).length ≤ 3 * s.queue.length + 5 ∧
+      s1.pc r = .idle ∧ s1.lock = none ∧ s1.lower = max l s.lower ∧ s1.maxDiff = s.maxDiff ∧
+      s1.queue = [] ∧
+      (∀ g u, g ∈ s.queue → s.pc g = .susp u false → s1.pc g = .susp u true ∧ 0 < s1.tok g) ∧
+      (∀ g u, g ∈ s.queue → s.pc g = .susp u false →
+        (u - s.maxDiff ≤ max l s.lower →
+          ∃ s2, runLog SSem.step s1 (SSem.waitSoloPass g u (max l s.lower)) = some s2 ∧
+            (SSem.waitSoloPass g u (max l s.lower)).length = 6 ∧
+            (SSem.waitSoloPass g u (max l s.lower)).getLast? = some (.ret g true) ∧
+            s2.pc g = .idle ∧ s2.lock = none ∧ s2.queue = [] ∧ s2.lower = max l s.lower) ∧
+        (¬ u - s.maxDiff ≤ max l s.lower →
+          ∃ s2, runLog SSem.step s1 (SSem.waitSoloBlock g u 0) = some s2 ∧
+            (SSem.waitSoloBlock g u 0).length = 6 ∧
+            s2.pc g = .susp u false ∧ s2.tok g = s.tok g ∧ g ∈ s2.queue ∧ s2.queue = [g] ∧
+            s2.lock = none ∧ s2.lower = max l s.lower)) := by
+  obtain ⟨n, d, l0, log, hlog⟩ := hr
+  obtain ⟨hi, _, _⟩ := SSem.inv_of_accepted hlog
+  have hnd := hi.qNodup
+  have hqn : ∀ g, g ∈ s.queue → g < s.n := by
+    intro g hg
+    have h1 := (hi.qIff g).1 hg
+    by_cases hc : s.n ≤ g
+    · rw [hi.outside g hc] at h1; simp [SSem.inQ] at h1
+    · omega
+  obtain ⟨s1, a1, a2, a3, a4, a5, a6, a7, a8, a9⟩ := SSem.sigSolo_spec r l s hl hrn hp hpark hnd
+  refine ⟨s1, a1, SSem.sigSolo_length r l s.lower s.queue, a3, a2, a4, a5, a7, ?_, ?_⟩
+  · intro g u hg hu
+    have := a8 g u hg hu
+    exact ⟨this.1, by omega⟩
+  · intro g u hg hu
+    obtain ⟨b1, b2⟩ := a8 g u hg hu
+    have hgn : g < s1.n := by rw [a6]; exact hqn g hg
+    refine ⟨?_, ?_⟩
+    · intro hle
+      have hs : SSem.sat s1 u = true := by simp [SSem.sat, a4, a5, hle]
+      obtain ⟨s2, c1, c2, c3, c4, c5, c6, c7, c8, c9⟩ :=
+        SSem.waitSoloPass_spec g u s1 a2 hgn b1 (by omega) hs
+      rw [a4] at c1
+      exact ⟨s2, c1, rfl, rfl, c3, c2, by rw [c7, a7], by rw [c4, a4]⟩
+    · intro hnle
+      have hs : SSem.sat s1 u = false := by simp [SSem.sat, a4, a5, hnle]
+      obtain ⟨s2, c1, c2, c3, c4, c5, c6, c7, c8, c9⟩ :=
+        SSem.waitSoloBlock_spec g u s1 a2 hgn b1 (by omega) hs
+      simp only [a7, List.length_nil, List.nil_append] at c1 c7
+      exact ⟨s2, c1, rfl, c3, by omega, by rw [c7]; simp, c7, c2, by rw [c4, a4]⟩
+
+/-- **If every queued waiter is within distance of the new lower limit, one `signal(l)` returns
+    them all.**  Same situation as above; if `u - max_difference ≤ max l lower` for every queued
+    `wait(u)`, then the signaller's solo run followed by the solo runs of the woken waiters in queue
+    order (`SSem.passAll` over the queue with each waiter's upper limit, `SSem.qU`; exactly
+    `6 |queue|` events) is accepted and ends with the signaller and all former waiters returned,
+    the queue empty and the lock free. -/
+theorem C08t_sliding_signal_wakes_all (s : SSem.St) (hr : SReachable s) (r : Nat) (l : Int) (hrn : r < s.n)
+    (hl : s.lock = none) (hp : s.pc r = .want (.signal l))
+    (hpark : ∀ g, g ∈ s.queue → ∃ u, s.pc g = .susp u false)
+    (hnear : ∀ g u, g ∈ s.queue → s.pc g = .susp u false → u - s.maxDiff ≤ max l s.lower) :
+    ∃ s2,
+      runLog SSem.step s (SSem.sigSolo r l s.lower s.queue ++ SSem.passAll (SSem.qU s) (max l s.lower)) = some s2 ∧
+      (SSem.sigSolo r l s.lower s.queue ++ SSem.passAll (SSem.qU s) (max l s.lower)).length
+        ≤ (3 * s.queue.length + 5) + 6 * s.queue.length ∧
+      (SSem.passAll (SSem.qU s) (max l s.lower)).length = 6 * s.queue.length ∧
+      s2.pc r = .idle ∧ (∀ g, g ∈ s.queue → s2.pc g = .idle) ∧
+      s2.lock = none ∧ s2.queue = [] ∧ s2.lower = max l s.lower ∧ s2.maxDiff = s.maxDiff := by
+  obtain ⟨n, d, l0, log, hlog⟩ := hr
+  obtain ⟨hi, _, _⟩ := SSem.inv_of_accepted hlog
+  have hnd := hi.qNodup
+  have hqn : ∀ g, g ∈ s.queue → g < s.n := by
+    intro g hg
+    have h1 := (hi.qIff g).1 hg
+    by_cases hc : s.n ≤ g
+    · rw [hi.outside g hc] at h1; simp [SSem.inQ] at h1
+    · omega
+  have hrq : r ∉ s.queue := by
+    intro hg; obtain ⟨u, hu⟩ := hpark r hg; rw [hp] at hu; simp at hu
+  obtain ⟨s1, a1, a2, a3, a4, a5, a6, a7, a8, a9⟩ := SSem.sigSolo_spec r l s hl hrn hp hpark hnd
+  obtain ⟨s2, b1, b2, b3, b4, b5, b6, b7, b8⟩ := SSem.passAll_spec (SSem.qU s) s1 a2
+    (by intro p hpq
+        have hg := SSem.mem_qU_queue s p hpq
+        obtain ⟨u, hu⟩ := hpark p.1 hg
+        have he := (SSem.mem_qU s p hpq u false hu).2
+        obtain ⟨c1, c2⟩ := a8 p.1 u hg hu
+        have hle := hnear p.1 u hg hu
+        rw [he]
+        exact ⟨by rw [a6]; exact hqn p.1 hg, c1, by omega, by simp [SSem.sat, a4, a5, hle]⟩)
+    (by rw [SSem.qU_fst]; exact hnd)
+  rw [a4] at b1
+  have hlen : (SSem.passAll (SSem.qU s) (max l s.lower)).length = 6 * s.queue.length := by
+    rw [SSem.passAll_length, SSem.qU_length]
+  refine ⟨s2, ?_, ?_, hlen, ?_, ?_, b2, by rw [b7, a7], by rw [b4, a4], by rw [b5, a5]⟩
+  · rw [runLog_append, a1]; simpa using b1
+  · rw [List.length_append, hlen]
+    have := SSem.sigSolo_length r l s.lower s.queue
+    omega
+  · rw [(b8 r (by rw [SSem.qU_fst]; exact hrq)).1]; exact a3
+  · intro g hg
+    have : (g, (SSem.ubound (s.pc g)).getD 0) ∈ SSem.qU s := by
+      simp only [SSem.qU, List.mem_map]; exact ⟨g, hg, rfl⟩
+    exact b3 _ this
+
+/-- non-vacuity: three threads, `max_difference = 1`, `lower_limit = 0`; threads 0 and 1 park in
+    `wait(5)` and `wait(9)`; thread 2 runs `signal(4)` alone (`SSem.sigSolo 2 4 0 [0, 1]`, 8
+    events), then waiter 0 passes (`5 - 1 ≤ 4`) and waiter 1 blocks again (`9 - 1 > 4`). -/
+example : (runLog SSem.step (SSem.init 3 1 0)
+    ([.inv 0 (.wait 5), .slAcq 0, .cvEnq 0 1, .slRel 0, .suspend 0,
+      .inv 1 (.wait 9), .slAcq 1, .cvEnq 1 2, .slRel 1, .suspend 1,
+      .inv 2 (.signal 4)] ++
+     SSem.sigSolo 2 4 0 [0, 1] ++ SSem.waitSoloPass 0 5 4 ++ SSem.waitSoloBlock 1 9 0)).isSome = true := by
+  decide
+
+example : SSem.sigSolo 2 4 0 [0, 1] =
+    [.slAcq 2, .sig 2 4 2, .popResume 2 1 0, .slRel 2, .slAcq 2, .popResume 2 0 1, .slRel 2, .ret 2 false] := rfl
 
 end PikaVerif.C08t
